@@ -364,4 +364,5 @@ def run(ctx, progs):
         if any((b_.item.get("file") or "").endswith("bump_pool.rs") for b_ in P.fn_bodies()):
             from . import c19
             c19.r2_one_owner(ctx, P, R="C05.R9")   # a pooled arena is pushed back (or dropped) exactly once: never lost
+        c12.r1_no_wrapping(ctx, P, R="C05.R10")
     ctx.config = None
